@@ -118,7 +118,7 @@ end nested
 
 theorem countMsg_lok {cfg : Cfg} {s : State} (h : LOK s) (t : Int) : LOK (countMsg cfg s t) := by
   unfold countMsg; split
-  · exact h
+  · exact lok_same h rfl
   · exact lok_same h rfl
 
 theorem forward_lok (cfg : Cfg) : ∀ n, LOKfwd (forward cfg n)
@@ -304,15 +304,15 @@ theorem infoAll_lok : ∀ (ms : List Module) {s : State}, LOK s → LOK (infoAll
 
 theorem ticks_lok {s : State} (h : LOK s) : LOK (ticks cfg s) := by
   unfold ticks
-  have h1 : LOK (if cfg.timing && s.now - s.tTiming > 900 then { sendTiming cfg s with tTiming := s.now } else s) := by
+  have h1 : LOK (if cfg.timing && s.now - s.tTiming > cfg.pTiming then { sendTiming cfg s with tTiming := s.now } else s) := by
     split
     · unfold sendTiming
       exact lok_same (fwdTop_lok cfg _ _ (lok_same h (s' := { s with counts := [], inTraffic := true }) rfl)
         (by unfold okFrame mgrFrame; simp)) rfl
     · exact h
-  generalize (if cfg.timing && s.now - s.tTiming > 900 then { sendTiming cfg s with tTiming := s.now } else s) = s1 at h1
+  generalize (if cfg.timing && s.now - s.tTiming > cfg.pTiming then { sendTiming cfg s with tTiming := s.now } else s) = s1 at h1
   dsimp only
-  have h2 : LOK (if s1.now - s1.tTraffic > 1000 then sendTraffic cfg s1 else s1) := by
+  have h2 : LOK (if s1.now - s1.tTraffic > cfg.pTraffic then sendTraffic cfg s1 else s1) := by
     split
     · unfold sendTraffic
       refine lok_same (foldl_fwd_lok cfg _ ?_ (logTop_lok cfg (lok_same h1 (s' := { s1 with inTraffic := true }) rfl) 10
@@ -322,7 +322,7 @@ theorem ticks_lok {s : State} (h : LOK s) : LOK (ticks cfg s) := by
       obtain ⟨p, _, rfl⟩ := List.mem_map.mp hf
       unfold okFrame mgrFrame trafficBody; simp
     · exact h1
-  generalize (if s1.now - s1.tTraffic > 1000 then sendTraffic cfg s1 else s1) = s2 at h2
+  generalize (if s1.now - s1.tTraffic > cfg.pTraffic then sendTraffic cfg s1 else s1) = s2 at h2
   split
   · unfold sendActive
     exact lok_same (fwdTop_lok cfg _ _ (infoAll_lok cfg _ (logTop_lok cfg h2 10 (by decide)))
